@@ -80,7 +80,7 @@ impl WordProfile {
     pub const TINY: WordProfile = WordProfile { max_sylls: 3, max_segs: 2, supra: false, rich: 0, long: false };
 }
 
-const TONES: [u16; 6] = [0, 5, 51, 214, 1234, 3];
+const TONES: [u16; 8] = [0, 5, 51, 214, 1234, 3, 50, 105];
 
 pub fn pick_seg<'a>(t: &mut Tape, rich: u32) -> &'a PSeg {
     let p = pool();
@@ -96,13 +96,22 @@ pub fn gen_word(t: &mut Tape, prof: WordProfile) -> GWord {
     let tonal = prof.supra && t.chance(1, 5);
     let stressed = prof.supra && t.chance(1, 2);
     let prim = if stressed { t.pick(n) } else { usize::MAX };
-    let mut sylls = vec![];
+    let mut sylls: Vec<GSyll> = vec![];
     for i in 0..n {
+        // repeated syllables (what a syllable variable reference needs in order to match)
+        if i > 0 && t.chance(1, 8) {
+            let mut prev: GSyll = sylls[t.pick(i)].clone();
+            if i == prim { prev.stress = 1 } else if prev.stress == 1 { prev.stress = 0 }
+            sylls.push(prev);
+            continue;
+        }
         let k = 1 + t.weighted(&[3, 6, 3, 1][..prof.max_segs.min(4)]);
         let mut segs: Vec<(String, u8)> = vec![];
         // CV-ish bias: choose a vowel slot
         let vslot = if k == 1 { 0 } else { 1 + t.pick(k - 1).min(k - 2) };
         for j in 0..k {
+            // repeated segments (what a segment variable reference needs in order to match)
+            if j > 0 && t.chance(1, 12) { let prev = segs[t.pick(j)].clone(); segs.push(prev); continue; }
             let mut ps = pick_seg(t, prof.rich);
             // bias: vowel in the vowel slot, consonant elsewhere (3 tries on the common pool)
             for _ in 0..3 { if is_vowel(&ps.seg) == (j == vslot) { break } ps = pick_seg(t, 0); }
@@ -450,7 +459,9 @@ impl<'a> RuleGen<'a> {
         let mut xs = vec![];
         for _ in 0..size {
             let save = (self.prof.variables, self.prof.alphas); self.prof.variables = false; self.prof.alphas = false;
-            let e = if wh == Where::Context && t.chance(1, 8) { if t.chance(1, 2) { El::SBound } else { El::WBound } } else { self.seg_el(t, wh) };
+            let e = if wh == Where::Context && t.chance(1, 8) { if t.chance(1, 2) { El::SBound } else { El::WBound } }
+                    else if wh != Where::Output && self.prof.syll && t.chance(1, 10) { if wh == Where::Input && !self.prof.input_bound || t.chance(2, 3) { self.syll_el(t, wh) } else { El::SBound } }
+                    else { self.seg_el(t, wh) };
             self.prof.variables = save.0; self.prof.alphas = save.1;
             xs.push(e);
         }
@@ -459,13 +470,15 @@ impl<'a> RuleGen<'a> {
 
     /// one element of an input term
     pub fn input_el(&mut self, t: &mut Tape) -> El {
-        let w = [10, if self.prof.sets { 2 } else { 0 }, if self.prof.syll { 2 } else { 0 }, if self.prof.structures { 1 } else { 0 }, if self.prof.syll && self.prof.input_bound { 1 } else { 0 }];
+        let w = [10, if self.prof.sets { 2 } else { 0 }, if self.prof.syll { 2 } else { 0 }, if self.prof.structures { 1 } else { 0 }, if self.prof.syll && self.prof.input_bound { 1 } else { 0 },
+                 if self.prof.syll && self.prof.variables && !self.vars_syll.is_empty() { 2 } else { 0 }];
         match t.weighted(&w) {
             0 => self.seg_el(t, Where::Input),
             1 => { let n = 2 + t.pick(2); self.set_el(t, Where::Input, n) }
             2 => self.syll_el(t, Where::Input),
             3 => self.struct_el(t, Where::Input),
-            _ => El::SBound,
+            4 => El::SBound,
+            _ => { let n = self.vars_syll[t.pick(self.vars_syll.len())]; El::Var { n, params: None } }
         }
     }
 
